@@ -327,3 +327,11 @@ import pipeline as _pl
 LEAN_MODULES = LEAN_MODULES + [m for m in _pl.LEAN_MODULES2 if m not in LEAN_MODULES]
 THEOREMS = THEOREMS + [t for t in _pl.THEOREMS2.get(ID, []) if t not in THEOREMS]
 GEN = GEN + [g for g in _pl.GEN if g not in GEN]
+
+# ---- `ka_sqrt`, `ka_log` / `ka_ln` / `ka_log10` / `ka_log2`, `strict_pow` and the Quantity versions of the one-argument numeric functions TRANSLATED from the source
+# (Gen/Bodies.lean) are proved equal to the hand-written model bodies (Props/Bodies.lean)
+LEAN_MODULES = LEAN_MODULES + [m for m in _pl.BODIES_MODULES if m not in LEAN_MODULES]
+THEOREMS = THEOREMS + [t for t in _pl.bodies_theorems(("BODIES_sqrt_", "BODIES_pow_Number", "BODIES_numsem_real", "BODIES_log_Number", "BODIES_ln_Number",
+                                                      "BODIES_ln_Quantity", "BODIES_log10_Number", "BODIES_log10_Quantity", "BODIES_log2_Number",
+                                                      "BODIES_log2_Quantity")) if t not in THEOREMS]
+GEN = GEN + [g for g in _pl.BODIES_GEN if g not in GEN]
